@@ -34,7 +34,6 @@ var perRecordRoots = []string{
 var constructionBoundary = map[string]bool{
 	"orchestrate/obykeyset.(*byKeySetOrchestrator).newPipeline": true,
 	"orchestrate/obase.PrepareSequentialPipeline":               true,
-	"input/sysloginput.(*Config).NewInput$1":                    true, // per-connection parser + extraction transforms from configuration
 }
 
 // runtimeSet: universe functions reachable from the per-record roots without entering construction
@@ -47,11 +46,11 @@ func (c *Ctx) runtimeSet() (map[*ssa.Function]*ssa.Function, []*ssa.Function) {
 		c.P.Fn(b) // must exist
 	}
 	reach := c.P.reachableFrom(roots, func(f *ssa.Function) bool {
-		return !c.P.inUni[f] || constructionBoundary[anchorName(f)]
+		return !c.P.inUni[f] || isConstructionBoundary(f)
 	})
 	var fns []*ssa.Function
 	for f := range reach {
-		if c.P.inUni[f] && f.Blocks != nil && !constructionBoundary[anchorName(f)] {
+		if c.P.inUni[f] && f.Blocks != nil && !isConstructionBoundary(f) {
 			fns = append(fns, f)
 		}
 	}
@@ -248,7 +247,7 @@ func ruleC07R1(c *Ctx) {
 				}
 				continue
 			}
-			if reason, ok := f6Reviewed[key]; ok {
+			if reason, ok := lookupReviewed(f6Reviewed, key); ok {
 				missing := ""
 				for _, req := range f6ReviewedRequires[key] {
 					if !requireHolds(pr, r, req) {
